@@ -137,6 +137,10 @@ func serveSpec(org *Origin, path string, p *ocspPKI, leaf *Leaf, spec func(attem
 			serial = req.SerialNumber
 		}
 		w.Header().Set("Content-Type", "application/ocsp-response")
+		// HTTP caching headers (RFC 5019 §6) are not signed: whatever a responder or an intermediary puts there, the
+		// lifetime of a cached answer is bounded by the signed nextUpdate or the configured default duration
+		w.Header().Set("Cache-Control", "max-age=86400, public, no-transform, must-revalidate")
+		w.Header().Set("Expires", time.Now().Add(24*time.Hour).UTC().Format(http.TimeFormat))
 		w.Write(p.makeResponse(s, leaf, serial))
 	})
 }
@@ -556,6 +560,65 @@ func runC05(c *Ctx) {
 		for k := range cs.Obs {
 			if cs.Obs[k] != cs.Want[k] {
 				c.Fail("", fmt.Sprintf("%s: %s -> %s, expected %s (an answer for another issuer's certificate was used)", cs.Name, cs.Events[k], cs.Obs[k], cs.Want[k]), cs)
+			}
+		}
+	}
+	// key rollover on ONE checker instance: two trusted CA certificates with the same name and different keys; a
+	// certificate under one key is checked first, then a certificate under the other key is answered with a response
+	// signed by the FIRST key for exactly its serial.  Whatever the checker remembers about "the issuer with this
+	// name", only the key of the certificate's own issuer authenticates an answer for it.  Both orders.
+	for _, order := range []string{"old key first", "new key first"} {
+		first, second := p.CA, p.Rekeyed
+		if order == "new key first" {
+			first, second = p.Rekeyed, p.CA
+		}
+		cs := &c14Case{Name: "same-named issuers with different keys on one checker, " + order}
+		org := NewOrigin()
+		var body atomic.Value
+		var down int32
+		org.Route("/r", func(_ int, w http.ResponseWriter, r *http.Request) {
+			if atomic.LoadInt32(&down) == 1 {
+				http.Error(w, "down", 503)
+				return
+			}
+			w.Header().Set("Content-Type", "application/ocsp-response")
+			w.Write(body.Load().([]byte))
+		})
+		signed := func(by *CA, serial *big.Int, status int) []byte {
+			tmpl := ocsp.Response{SerialNumber: serial, ThisUpdate: time.Now().Add(-time.Minute), NextUpdate: time.Now().Add(time.Hour), Status: status}
+			if status == ocsp.Revoked {
+				tmpl.RevokedAt = time.Now().Add(-time.Hour)
+			}
+			b, err := ocsp.CreateResponse(by.Cert, by.Cert, tmpl, by.Key)
+			mustNoErr(err)
+			return b
+		}
+		l1 := first.IssueLeaf(LeafOpts{CN: "c05-roll-1", Serial: nextOCSPSerial(), OCSP: []string{org.URL("/r")}})
+		l2 := second.IssueLeaf(LeafOpts{CN: "c05-roll-2", Serial: nextOCSPSerial(), OCSP: []string{org.URL("/r")}})
+		v, err := NewValidator(VCfg{Mode: "ocsp_only", AIAStrict: true, CacheDuration: "1h", NoCRLConfig: true})
+		mustNoErr(err)
+		step := func(ev, want, got string) {
+			cs.Events = append(cs.Events, ev)
+			cs.Want = append(cs.Want, want)
+			cs.Obs = append(cs.Obs, got)
+		}
+		body.Store(signed(first, l1.Cert.SerialNumber, ocsp.Good))
+		step("certificate 1 (issuer key K1), authentic good signed by K1", "accept", classify(v.Verify(l1.Cert, first.Cert, p.Root.Cert)))
+		body.Store(signed(first, l2.Cert.SerialNumber, ocsp.Good))
+		step("certificate 2 (issuer key K2, same issuer name), 'good' for its serial signed by K1", "error", classify(v.Verify(l2.Cert, second.Cert, p.Root.Cert)))
+		atomic.StoreInt32(&down, 1)
+		step("certificate 2 again, responder down (shows what was cached)", "error", classify(v.Verify(l2.Cert, second.Cert, p.Root.Cert)))
+		atomic.StoreInt32(&down, 0)
+		body.Store(signed(second, l2.Cert.SerialNumber, ocsp.Revoked))
+		step("certificate 2, authentic revoked signed by K2", "revoked", classify(v.Verify(l2.Cert, second.Cert, p.Root.Cert)))
+		v.Close()
+		org.Close()
+		c.Count("rollover-sequence")
+		c.Nontrivial("rollover|" + order)
+		c.Sample(cs)
+		for k := range cs.Obs {
+			if cs.Obs[k] != cs.Want[k] {
+				c.Fail("", fmt.Sprintf("%s: %s -> %s, expected %s", cs.Name, cs.Events[k], cs.Obs[k], cs.Want[k]), cs)
 			}
 		}
 	}
